@@ -349,6 +349,50 @@ class OnlyContainer:
         return True
 
 
+# classes that define only SOME of the methods separating a protocol from the next narrower one (the protocol
+# automaton must move only when EVERY required method is present)
+class USeqAppend(USeq):
+    def append(self, x):
+        self._xs.append(x)
+
+
+class USeqPop(USeq):
+    def pop(self, i=-1):
+        return self._xs.pop(i)
+
+    def clear(self):
+        self._xs.clear()
+
+
+class USetAdd(USet):
+    def add(self, x):
+        pass
+
+
+class UMapSetitem(UMap):
+    def __setitem__(self, k, v):
+        pass
+
+
+class SizedContainer:
+    def __contains__(self, x):
+        return True
+
+    def __len__(self):
+        return 3
+
+
+class IterClose:
+    def __iter__(self):
+        return self
+
+    def __next__(self):
+        raise StopIteration
+
+    def close(self):
+        pass
+
+
 def f_plain(x, y):
     return x
 
@@ -381,6 +425,7 @@ LEAVES = {
     'fraction': lambda: fractions.Fraction(1, 2), 'iter': lambda: iter([1, 2]), 'gen': lambda: (i for i in range(2)),
     'exc': lambda: ValueError('x'), 'S': lambda: S('ab'), 'S0': lambda: S(''), 'I': lambda: I(3), 'slice': lambda: slice(1, 2),
     'onlyiter': lambda: OnlyIter(), 'onlysized': lambda: OnlySized(), 'onlycontainer': lambda: OnlyContainer(),
+    'sizedcontainer': lambda: SizedContainer(), 'iterclose': lambda: IterClose(),
     'module': lambda: types.ModuleType('m'), 'namespace': lambda: types.SimpleNamespace(a=1), 'zip': lambda: zip(),
     'complex': lambda: 1j, 'bytes': lambda: b'xy', 'bytes0': lambda: b'', 'bytearray': lambda: bytearray(b'ab'),
     'bytearray0': lambda: bytearray(), 'memoryview': lambda: memoryview(b'ab'), 'nt': lambda: NT(1, 'a'),
@@ -389,11 +434,11 @@ LEAVES = {
 HASHABLE_LEAVES = ['P', 'len', 'f_plain', 'f_ann2', 'int_cls', 'P_cls', 'type_cls', 'object_cls', 'enum', 'intenum', 'ellipsis', 'fraction', 'S',
                    'I', 'complex', 'bytes', 'nt', 'callme', 'object', 'none_cls', 'list_cls', 'str_upper']
 SEQ_KINDS = {'list': list, 'tuple': tuple, 'deque': collections.deque, 'L': L, 'Tp': Tp, 'useq': USeq, 'umseq': UMSeq, 'ucoll': UColl,
-             'duckseq': DuckSeq, 'useq_bgen': bgen.UserSeq}
-SET_KINDS = {'set': set, 'frozenset': frozenset, 'FS': FS, 'uset': USet, 'usetne': USetNe, 'umset': UMSet, 'uset_bgen': bgen.UserSet}
+             'duckseq': DuckSeq, 'useq_bgen': bgen.UserSeq, 'useq_append': USeqAppend, 'useq_pop': USeqPop}
+SET_KINDS = {'set': set, 'frozenset': frozenset, 'FS': FS, 'uset': USet, 'usetne': USetNe, 'umset': UMSet, 'uset_bgen': bgen.UserSet, 'uset_add': USetAdd}
 MAP_KINDS = {'dict': dict, 'D': D, 'ordereddict': collections.OrderedDict, 'defaultdict': lambda d: collections.defaultdict(list, d),
              'chainmap': lambda d: collections.ChainMap({}, d), 'chainmap1': lambda d: collections.ChainMap(d),
-             'counter': collections.Counter, 'C': C, 'umap': UMap, 'umapne': UMapNe, 'ummap': UMMap, 'duckmap': DuckMap,
+             'counter': collections.Counter, 'C': C, 'umap': UMap, 'umapne': UMapNe, 'ummap': UMMap, 'duckmap': DuckMap, 'umap_setitem': UMapSetitem,
              'mappingproxy': lambda d: types.MappingProxyType(d), 'umap_bgen': bgen.UserMap}
 VIEW_KINDS = {'keys': lambda d: d.keys(), 'values': lambda d: d.values(), 'items': lambda d: d.items(),
               'okeys': lambda d: collections.OrderedDict(d).keys(), 'ovalues': lambda d: collections.OrderedDict(d).values(),
